@@ -9,6 +9,15 @@ TRUST = ("Trusted base: Go type checker and go/ssa construction (x/tools v0.29.0
 
 # id -> (claimed?, technique, level text, not-decided / note, design ref)
 P = {
+ "C03": (True, "static analysis: who-may-X over resolved SSA callees, must-pass-through on entry points, sender and NodeStream",
+         "Decides the structural chain behind per-node FIFO: synchronous hand-off into one queue per node on the caller's goroutine for every targeted node before go/return, one producer function, one consumer goroutine started once per node, one stream writer called once per dequeued request, and on the server: release-before-next-receive, one handler start per freshly allocated received message, handler/stub name bijection. Necessary structural conditions.",
+         "Not decided: in-order delivery by gRPC and Go channels (trusted); liveness.", "DESIGN.md section 3, C03"),
+ "C04": (True, "static analysis: must-pass-through in NodeStream, value-flow of the per-connection mutex, closure rules on generated handlers",
+         "Decides the one-handler-at-a-time protocol's structure: lock re-acquired between a handler start and the next receive, the mutex is per connection and only released by Release (exactly once.Do(mut.Unlock), fresh Once per start) or at stream exit, every generated handler defers Release, the stream has a single writer and SendMessage is bounded by the stream context. Necessary structural conditions.",
+         "Not decided: observed overlap at run time; handlers that never return.", "DESIGN.md section 3, C04"),
+ "C06": (True, "static analysis: SSA provenance per loop iteration (phi edges vs nil-test edges), iteration-shape counting, condition-consistent reachability for the no-send-waiting edge",
+         "Decides the per-node argument dataflow (d.Message vs PerNodeArgFn(d.Message, n.id) of this iteration's node, skip exactly on !IsValid, enqueued on that node), at-most-once hand-off/send, that one-way calls wait only for as many send confirmations as they enqueued and for none with no-send-waiting, the confirmation's placement and guard, and one-way handler/stub shape in generated code. Necessary structural conditions.",
+         "Not decided: exactly-once delivery when reachable (liveness); message equality at the server (codec).", "DESIGN.md section 3, C06"),
  "C09": (True, "static analysis: lock-state dataflow (may/must held) + interprocedural blocking classifier + goroutine-root call paths; lock-order graph",
          "Decides the absence of the structural ingredients of a permanent wedge: no unbounded blocking operation under a client-side mutex (with machine-checked side conditions for reply sends and stream operations), re-check under the write lock in reconnect, streaming-capable reply channels, deferred router deletion for stream correctables, acyclic lock order. Two genuine defects of the pinned tree are recorded as known findings (W1a stale-flag wedge, W1b/W3 streaming delivery under the router lock). Necessary structural conditions.",
          "Not decided: liveness of a healthy node; gRPC internals; quorum-function latency.", "DESIGN.md section 3, C09"),
